@@ -100,6 +100,10 @@ ASSUME Fails(B2("=", 1, 2), NoVars) /\ Fails(Post("++", N(1)), NoVars) /\ Is(Bin
 ASSUME {o.t : o \in Allowed(Bin("+", X, Bin("=", X, N(1))), NoVars)} = {"u"}
 ASSUME {o.t : o \in Allowed(Bin("=", X, Post("++", X)), NoVars)} = {"u"}
 ASSUME Is(Bin("=", X, Bin("+", X, N(1))), With(NoVars, "x", <<"4">>), 5)
+\* [C] 6.5.1p5: a parenthesized lvalue is an lvalue; redundant parentheses do not change the value
+ASSUME LET e == Bin("=", Group(X), N(3)) IN Is(e, NoVars, 3) /\ Text(e, "t") = "(x)=3"
+ASSUME LET e == Post("++", Group(Group(X))) IN Is(e, With(NoVars, "x", <<"4">>), 4) /\ Text(e, "t") = "((x))++"
+ASSUME Is(Bin("*", Group(N(2)), Group(B2("+", 3, 4))), NoVars, 14) /\ Fails(Bin("=", Group(N(1)), N(2)), NoVars)
 \* variable values: XCU 2.6.4 "$((x))" and "$(($x))" agree for integer constants
 ASSUME ValueOf(<<"0", "1", "0">>) = [c |-> "num", v |-> FromInt(8)] /\ ValueOf(<<"0", "x", "1", "0">>) = [c |-> "num", v |-> FromInt(16)]
 ASSUME ValueOf(<<"-", "0", "1", "0">>) = [c |-> "num", v |-> FromInt(-8)] /\ ValueOf(<<"+", "5">>).v = FromInt(5)
